@@ -109,11 +109,13 @@ def main():
         rep.samples += [o[0] for o in flat[:2]]
     import penalty_matrix
     penalty_matrix.add(rep, thorough, monotonic=True, name="C10-penalty-matrix")
+    import glam_exact
+    glam_exact.add(rep, thorough, monotonic=True, name="C10-glamfit-exact")
     rep.assume("PARTIAL (structural half of C10): NOT decided - that nnls_normal_block3 returns non-negative increments and the constrained optimum (cholmod numerics, F/G/H bookkeeping), and the second clause of C10 (inactive constraint => same coefficients as the unconstrained fit)",
                "given non-negative, non-NaN increments the running sums are non-decreasing also in float arithmetic (round-to-nearest addition of a non-negative number never decreases a value): a standard IEEE fact, not re-proved here",
-               "second clause (inactive constraint => same coefficients): its necessary condition 'the monotonic fit minimises the same objective, written in T-spline coordinates' is decided exactly for the penalty: assembled matrix == (I x L x I)' P (I x L x I); the data term (basis x L inside glamfit_complex) is not checked",
+               "second clause (inactive constraint => same coefficients): its necessary condition 'the monotonic fit minimises the same objective, written in T-spline coordinates' is decided exactly for the penalty: assembled matrix == (I x L x I)' P (I x L x I); the data term is decided too (C10-glamfit-exact: the WHOLE glamfit_complex executed exactly - the system handed to nnls_normal_block3 is (I x L x I)' N (I x L x I) + penalty with N the weighted normal matrix, and the coefficients written out are the running sums of the solver's result along the monotonic dimension)",
                "the penalty-side T-spline conversion is also an obligation of the C09 check (calc_penalty mono=1); the non-negativity of every reported trial solution is an obligation of the C12 worker harness",
-               "the basis-side conversion inside glamfit_complex (basis x tril) is not checked (cholmod calls)")
+               "the basis-side conversion inside glamfit_complex (basis x tril) is part of C10-glamfit-exact (cholmod = exact sparse algebra supplied by the interpreter; the NNLS solver is an assumed contract: it is handed the right problem, its answer is not judged)")
     rep.trust("tools/gotoexec.py", "goto-cc front end", "tools/extract.py")
     rep.finish(None)
 
